@@ -15,6 +15,15 @@ CHECKS = {
     'C16': dict(category='model_checking', technique='explicit-state BFS over API call histories of the real classes (canonical-snapshot dedup), reference dictionary model + invariants + atomicity + copy independence on every transition, == on all state pairs',
                 text='Breadth-first search over all call histories up to depth 3 (FactorGraph 2; thorough 4/3) for Graph, FactorGraph, HRG and FGG over alphabets of 22-58 concrete calls including calls that must fail; every transition executes the real method and is compared with a plain-Python reference model (acceptance and resulting nodes/edges/ext/rules/start/domains/factors), the well-formedness invariants, atomicity of failing calls, copy equality and copy independence; == is evaluated on all pairs of visited states (reflexive, symmetric, partition, distinguishes structural differences).',
                 note='The model is the specification of acceptance; where acceptance depends on whether a no-longer-used label is still remembered the model allows either. Every explored trace is an implementation trace. Bounds in evidence.coverage.per_object.', design='3/C16'),
+    'C15': dict(category='model_checking', technique='explicit-state search over all rewrite orders of every derivation tree (<=6 rule instances, thorough 7) on the real replace_edge/derive, per-transition oracle + confluence by canonical forms',
+                text='For every derivation tree up to the size bound over a universal HRG of 17 rule templates, the set of reachable (set of rewritten instances) states is explored exhaustively; each transition is one real replace_edge call on a deep copy of the host and is judged (edge removed, externals identified in order, fresh copies, labels/attachment order kept, rest untouched, type errors rejected atomically); revisits compare canonical graphs (confluence); the unique terminal state must be isomorphic to FGGDerivation.derive(), whose assignment must be total and whose weight must equal the product over rule instances.',
+                note='Trusted: mc.canon canonical form; objects are kept alive so address-derived ids are not recycled. Isomorphic hosts are assumed to have isomorphic futures (used for state dedup).', design='3/C15'),
+    'C17': dict(category='exploration', technique='exhaustive enumeration of all ordered grammar pairs of a bounded family x naming schemes x edge orders; derivation multisets to depth 3 (thorough 4) compared with harness-side pairing',
+                text='Every ordered pair of HRGs of a 105-grammar family (shared node and nonterminal-edge ids), five naming schemes including the X+"Y,Z" / "X,Y"+Z clash, a terminal named like a pair and shared terminal names, and both edge insertion orders, is conjoined by the real conjoin_hrgs; the multiset of derivations of the result must equal the multiset of conjoinable derivation pairs computed independently; names fresh; ValueError exactly on a genuine terminal conflict.',
+                note='Derivations are compared up to a depth bound; terminal edges have implicit ids (two grammars sharing a terminal edge id are out of scope).', design='3/C17'),
+    'C05': dict(category='exploration', technique='exhaustive enumeration of rule shapes (<=4 nodes, <=4 edges) x nonterminal masks x 3 methods x 4 entry points; harness-side inlining + canonical forms; tree_decomposition spy',
+                text='Every right-hand-side shape below the bound, in two node numberings, with terminal / partly / fully nonterminal edges whose names collide with the fresh-name scheme, is factorized by the real code through factorize_rule (with and without labels), factorize_hrg (also on HRG.copy()) and factorize_fgg with each method; fresh nonterminals are inlined by the harness and the result compared with the original rule up to isomorphism, per left-hand side and in order; widths, name freshness, labels argument, kept interpretation, equal sum-product and the forwarded method are checked.',
+                note='Trusted: mc.canon. Shapes are enumerated up to isomorphism (two numberings each); bounds in evidence.', design='3/C05'),
 }
 
 ALL = ['C%02d' % i for i in range(1, 21)]
